@@ -10,8 +10,9 @@ from . import tlc
 from .tlc import MachineryError  # noqa: F401
 
 VERIF = tlc.VERIF
-EVIDENCE = os.path.join(VERIF, "evidence")
-REPLAYS = os.path.join(VERIF, "replays")
+# a trial against a scratch tree (VERIF_REPO) must not overwrite the evidence of /repo: it names its own output directories
+EVIDENCE = os.environ.get("VERIF_EVIDENCE_DIR") or os.path.join(VERIF, "evidence")
+REPLAYS = os.environ.get("VERIF_REPLAYS_DIR") or os.path.join(VERIF, "replays")
 FINDINGS_FILE = os.path.join(VERIF, "known_findings.json")
 LEVEL = "model_checking"
 
